@@ -395,7 +395,7 @@ class BHarness:
     """one symbolic-execution harness: entry `entry` (void(void), nondet_* inputs, __CPROVER_assume, __verif_check) in TU `src`"""
     def __init__(s, name, src, entry, defs=(), noinline=False, inline_all=False, tie_free=False, monotone=False, exact_add=False, stubs=None, maxpaths=20000, maxsteps=400000,
                  timeout=900, solver_timeout_ms=60000, what='', bound='', pre_inc=(), cflags=(), tiers=('quick', 'thorough'), std='c++11', min_paths=1, extra_exclusions=(), allow_error=False,
-                 native_replay=True, post=None, split=1):
+                 native_replay=True, post=None, split=1, log_stores=False):
         s.__dict__.update(locals()); del s.__dict__['s']; s.redirect = None
 
 def _b_worker(args):
@@ -435,7 +435,7 @@ def _b_worker(args):
         from fractions import Fraction
         st = irz.explore(m, '@' + h.entry, lambda: irz.SymFP(monotone=h.monotone, exact_add=h.exact_add), on_path=on_path, tie_free=h.tie_free, stubs=h.stubs,
                          maxpaths=h.maxpaths, maxsteps=h.maxsteps, timeout=h.timeout, solver_timeout_ms=h.solver_timeout_ms,
-                         initial_work=initial_work, stop_when_pending=(h.split * 6 if seeding else None))
+                         initial_work=initial_work, stop_when_pending=(h.split * 6 if seeding else None), log_stores=h.log_stores)
         out['queries'] = st['queries'] + out['obl']; out['infeasible'] = st['infeasible']; out['remaining'] = st['remaining']
         out['functions'] = sorted(funcs)
     except Exception as e:
